@@ -100,6 +100,20 @@ CHECKS = {
         technique="TLA+ transcription checked exhaustively by TLC + exhaustive replay of the universe on the code + TLC trace monitor",
         design_ref="DESIGN.md section 5 C06",
     ),
+    "C02": dict(
+        level="differential_testing",
+        text="FileLayout.tla is an independent reader of Parquet files written in TLA+ from the format documents: it parses "
+             "the footer and every page header with Thrift.tla, decompresses with Snappy.tla, checks CRC-32, decodes levels "
+             "and values with Encodings.tla and re-derives every offset, size, value/row/null count, encoding list and "
+             "statistics, page-index entry, bloom-filter frame and row-group total; the regions it finds must tile the file. "
+             "TLC-simulated writer histories x option vectors are executed directly and through WriteRowGroup (copy and "
+             "re-encode); the harness passes rows with levels it computed itself, logs the file bytes and the streams "
+             "written, and LayoutMon.tla makes TLC read each file and compare.",
+        note="GZIP/ZSTD/LZ4_RAW/BROTLI page bodies are decompressed for the specification by the codec packages; files are "
+             "kept below ~40 kB; one schema (all physical types, optional, repeated, optional group with repeated leaf).",
+        technique="executable TLA+ specification of the file format evaluated by TLC as independent reader over files produced from TLC-simulated writer histories",
+        design_ref="DESIGN.md section 5 C02",
+    ),
     "C03": dict(
         level="model_checking",
         text="Dremel.tla defines the (value, r, d) streams of a value (Shred) and is self-checked by TLC over a curated "
